@@ -1,25 +1,295 @@
-(* Proofs/StorageConc.v : the concurrent clause of C05 (partial, see Properties/C05.v). *)
+(* Proofs/StorageConc.v : the concurrent clause of C05 over the small-step model of Model/StorageConc.v. *)
 From Shisui Require Import Base.Bytes Gen.K_storage Model.Storage Model.StorageConc Proofs.Storage.
+From Coq Require Import ZifyBool ZifyN ZifyNat.
+Local Arguments N.add : simpl never.
+Local Arguments N.mul : simpl never.
+Local Arguments N.sub : simpl never.
+Local Arguments N.ltb : simpl never.
 
-(* two goroutines, node id zero, values of 100 and 200 bytes *)
-Definition conc_demo : cstate (V:=N) :=
-  {| cdb := empty_db; ccnt := 0; crad := MAXD; cnode := zero32;
-     threads := [ {| t_id := key32 x01 x01; t_val := 100; t_pc := T0 |};
-                  {| t_id := key32 x02 x02; t_val := 200; t_pc := T0 |} ] |}.
+Section ConcFacts.
+  Context {V : Type}.
+  Variable vlen : V -> N.
+  Variable vhead8 : V -> res N.
+  Variable dec : bytes -> N.
+  Notation micro := (micro vlen dec).
+  Notation micro_iter := (micro_iter vlen dec).
+  Notation put_state := (put_state vlen dec).
+  Notation seq_puts := (seq_puts vlen dec).
+  Notation cstep := (cstep vlen dec).
+  Notation exec := (exec vlen dec).
+  Notation st := (@st V).
 
-(* unlocked Put: A checks and adds (132), B checks, adds (364) and commits, A commits last: the persisted record
-   says 132 while 364 bytes are held *)
+  (* ---------------- one Put, step by step, is Put *)
+  Lemma micro_done (s : st) id v r : micro s id v (MDone r) = (s, MDone r).
+  Proof. reflexivity. Qed.
+
+  Lemma micro_iter_done k (s : st) id v r : micro_iter k s id v (MDone r) = (s, MDone r).
+  Proof. induction k as [|k IH]; [reflexivity|]. cbn [StorageConc.micro_iter]. rewrite micro_done. exact IH. Qed.
+
+  Lemma micro_iter_add a b (s : st) id v pc :
+    micro_iter (a + b) s id v pc = let '(s', pc') := micro_iter a s id v pc in micro_iter b s' id v pc'.
+  Proof.
+    revert s pc; induction a as [|a IH]; intros s pc; [reflexivity|].
+    cbn [Nat.add StorageConc.micro_iter]. destruct (micro s id v pc) as [s1 pc1]. apply IH.
+  Qed.
+
+  Lemma micro_node (s : st) id v pc : node (fst (micro s id v pc)) = node s.
+  Proof.
+    destruct pc; cbn [StorageConc.micro]; try reflexivity.
+    - destruct (xor_key id (node s)); [destruct (dec a <? rad s)| |]; reflexivity.
+    - destruct (drop_far vlen (expect s) 0 (rev (kv (sdb s)))) as [[ds freed] stop]. reflexivity.
+    - destruct (size <? freed); reflexivity.
+  Qed.
+
+  Lemma micro_iter_node k : forall (s : st) id v pc, node (fst (micro_iter k s id v pc)) = node s.
+  Proof.
+    induction k as [|k IH]; intros s id v pc; [reflexivity|]. cbn [StorageConc.micro_iter].
+    pose proof (micro_node s id v pc) as H. destruct (micro s id v pc) as [s1 pc1]. cbn [fst] in H. now rewrite IH.
+  Qed.
+
+  (* six steps from MCheck finish the call, in exactly the state Put produces *)
+  Lemma micro_run_put (s : st) id v : length (node s) = 32%nat ->
+    exists r, micro_iter 6 s id v MCheck = (put_state s (id, v), MDone r).
+  Proof.
+    intros HN. destruct (xor_key_total id (node s) HN) as (k & XK & _).
+    unfold StorageConc.put_state, put. cbn [fst snd]. rewrite XK. cbn [bind].
+    cbn [StorageConc.micro_iter StorageConc.micro]. rewrite XK.
+    destruct (dec k <? rad s) eqn:ER; cbn [negb].
+    - cbn [StorageConc.micro]. change (cap (set_cnt s (cnt s + nlen id + vlen v))) with (cap s).
+      set (n := cnt s + nlen id + vlen v).
+      change (set_sdb (set_cnt s n) (apply_batch (sdb (set_cnt s n)) [BSetSize n; BSetItem k v]))
+        with (with_db s (apply_batch (sdb s) [BSetSize n; BSetItem k v]) n (rad s)).
+      set (s1 := with_db s (apply_batch (sdb s) [BSetSize n; BSetItem k v]) n (rad s)).
+      change (cap s) with (cap s1). destruct (cap s1 <? n) eqn:EC.
+      + cbn [StorageConc.micro]. unfold prune.
+        destruct (drop_far vlen (expect s1) 0 (rev (kv (sdb s1)))) as [[ds freed] stop].
+        cbn [StorageConc.micro]. change (cnt (set_rad s1 _)) with (cnt s1).
+        destruct (cnt s1 <? freed); cbn [StorageConc.micro]; eexists; reflexivity.
+      + cbn [StorageConc.micro]. eexists; reflexivity.
+    - cbn [StorageConc.micro]. eexists; reflexivity.
+  Qed.
+
+  Lemma reach_done k (s0 s : st) id v r : length (node s0) = 32%nat ->
+    micro_iter k s0 id v MCheck = (s, MDone r) -> s = put_state s0 (id, v).
+  Proof.
+    intros HN H. destruct (micro_run_put s0 id v HN) as (r' & R).
+    pose proof (micro_iter_add k 6 s0 id v MCheck) as A. rewrite H, micro_iter_done in A.
+    pose proof (micro_iter_add 6 k s0 id v MCheck) as B. rewrite R, micro_iter_done in B.
+    rewrite Nat.add_comm in B. rewrite A in B. now inversion B.
+  Qed.
+
+  Lemma put_state_node (s : st) p : node (put_state s p) = node s.
+  Proof.
+    destruct p as [id v]. unfold StorageConc.put_state, put. cbn [fst snd].
+    destruct (xor_key id (node s)); cbn [bind]; try reflexivity.
+    destruct (negb (dec a <? rad s)); [reflexivity|].
+    destruct (cap s <? cnt s + nlen id + vlen v); [|reflexivity].
+    unfold prune. destruct (drop_far _ _ _ _) as [[ds freed] stop]. destruct (_ <? freed); reflexivity.
+  Qed.
+
+  Lemma seq_puts_node l : forall s : st, node (seq_puts s l) = node s.
+  Proof.
+    induction l as [|p l IH]; intros s; [reflexivity|]. cbn [StorageConc.seq_puts fold_left].
+    change (fold_left put_state l (put_state s p)) with (seq_puts (put_state s p) l). now rewrite IH, put_state_node.
+  Qed.
+
+  Lemma seq_puts_snoc (s : st) l p : seq_puts s (l ++ [p]) = put_state (seq_puts s l) p.
+  Proof. unfold StorageConc.seq_puts. now rewrite fold_left_app. Qed.
+
+  (* ---------------- lists with one position replaced *)
+  Lemma nth_replace_same {A} (l : list A) i x t : nth_error l i = Some t -> nth_error (replace_nth l i x) i = Some x.
+  Proof. revert i; induction l as [|h l IH]; intros [|i] H; cbn in *; try discriminate; [reflexivity | now apply IH]. Qed.
+
+  Lemma nth_replace_other {A} (l : list A) i j x : i <> j -> nth_error (replace_nth l i x) j = nth_error l j.
+  Proof.
+    revert i j; induction l as [|h l IH]; intros [|i] [|j] H; cbn; try reflexivity; try congruence.
+    apply IH. congruence.
+  Qed.
+
+  (* ---------------- the locked machine: every schedule is the serial history in lock-acquisition order *)
+  Definition CInv (s0 : st) (c : cstate (V:=V)) : Prop :=
+    node (sh c) = node s0 /\
+    match lock c with
+    | None =>
+        (forall i t, nth_error (thrs c) i = Some t -> cur t = None) /\ sh c = seq_puts s0 (log c)
+    | Some i =>
+        exists t id v pc l',
+          nth_error (thrs c) i = Some t /\ cur t = Some (id, v, pc) /\
+          (forall j t', j <> i -> nth_error (thrs c) j = Some t' -> cur t' = None) /\
+          log c = l' ++ [(id, v)] /\
+          exists k, micro_iter k (seq_puts s0 l') id v MCheck = (sh c, pc)
+    end.
+
+  Lemma cstep_inv (s0 : st) c i : length (node s0) = 32%nat -> CInv s0 c -> CInv s0 (cstep true c i).
+  Proof.
+    intros HN (NE & I). unfold StorageConc.cstep. destruct (nth_error (thrs c) i) as [t|] eqn:Ti; [|now split].
+    destruct (lock c) as [h|] eqn:L.
+    - destruct I as (th & id & v & pc & l' & Th & Ch & Oth & LG & k & RK).
+      destruct (Nat.eq_dec i h) as [->|NI].
+      + rewrite Ti in Th. inversion Th; subst th. rewrite Ch.
+        assert (DONE : forall r, pc = MDone r ->
+                  CInv s0 {| sh := sh c; lock := None; thrs := replace_nth (thrs c) h {| todo := todo t; cur := None |}; log := log c |}).
+        { intros r ->. split; [exact NE|]. cbn [lock thrs sh log]. split.
+          - intros j t' Hj. destruct (Nat.eq_dec h j) as [<-|NJ].
+            + rewrite (nth_replace_same _ _ _ _ Ti) in Hj. now inversion Hj.
+            + rewrite nth_replace_other in Hj by exact NJ. eapply Oth; [|exact Hj]. congruence.
+          - rewrite LG, seq_puts_snoc. eapply reach_done; [now rewrite seq_puts_node | exact RK]. }
+        assert (STEP : forall s' pc', micro (sh c) id v pc = (s', pc') ->
+                  CInv s0 {| sh := s'; lock := lock c; thrs := replace_nth (thrs c) h {| todo := todo t; cur := Some (id, v, pc') |}; log := log c |}).
+        { intros s' pc' M. split.
+          - cbn [sh]. pose proof (micro_node (sh c) id v pc) as MN. rewrite M in MN. cbn [fst] in MN. congruence.
+          - cbn [lock thrs sh log]. rewrite L. eexists _, id, v, pc', l'.
+            split; [eapply nth_replace_same; exact Ti|]. split; [reflexivity|]. split.
+            + intros j t' NJ Hj. rewrite nth_replace_other in Hj by congruence. eapply Oth; eassumption.
+            + split; [exact LG|]. exists (k + 1)%nat. rewrite micro_iter_add, RK. cbn [StorageConc.micro_iter]. now rewrite M. }
+        destruct pc; try (destruct (micro (sh c) id v _) as [s' pc'] eqn:M; rewrite L in STEP; now apply STEP).
+        cbn [andb]. eapply DONE. reflexivity.
+      + assert (Ct : cur t = None) by (eapply Oth; eassumption). rewrite Ct.
+        destruct (todo t) as [|[id' v'] rest]; [|cbn [andb]]; (split; [exact NE|]); rewrite L;
+          exists th, id, v, pc, l'; repeat split; try assumption; exists k; exact RK.
+    - destruct I as (AllN & SH). rewrite (AllN i t Ti).
+      destruct (todo t) as [|[id v] rest] eqn:TD; [split; [exact NE|]; rewrite L; now split|].
+      cbn [andb]. split; [exact NE|]. cbn [lock thrs sh log].
+      eexists _, id, v, MCheck, (log c). split; [eapply nth_replace_same; exact Ti|]. split; [reflexivity|]. split.
+      + intros j t' NJ Hj. rewrite nth_replace_other in Hj by congruence. eapply AllN; exact Hj.
+      + split; [reflexivity|]. exists 0%nat. cbn [StorageConc.micro_iter]. now rewrite SH.
+  Qed.
+
+  Lemma start_inv (s0 : st) work : CInv s0 (start s0 work).
+  Proof.
+    split; [reflexivity|]. cbn [lock start thrs sh log]. split; [|reflexivity].
+    intros i t H. apply nth_error_In in H. apply in_map_iff in H as (w & <- & _). reflexivity.
+  Qed.
+
+  Theorem exec_locked_inv (s0 : st) sched : forall c, length (node s0) = 32%nat -> CInv s0 c -> CInv s0 (exec true c sched).
+  Proof.
+    induction sched as [|i r IH]; intros c HN I; [exact I|]. cbn [StorageConc.exec fold_left].
+    apply IH; [exact HN | now apply cstep_inv].
+  Qed.
+
+  (* EVERY schedule: whenever nobody is inside Put - in particular when all goroutines have finished - the shared
+     store is exactly the result of the Puts started so far, executed one after another in lock-acquisition order *)
+  Theorem locked_is_serial (s0 : st) work sched : length (node s0) = 32%nat ->
+    let c := exec true (start s0 work) sched in
+    (lock c = None -> sh c = seq_puts s0 (log c)) /\
+    (quiescent c = true -> lock c = None).
+  Proof.
+    intros HN c. pose proof (exec_locked_inv s0 sched (start s0 work) HN (start_inv s0 work)) as (NE & I). fold c in NE, I.
+    split.
+    - intros L. rewrite L in I. apply I.
+    - intros Q. destruct (lock c) as [h|]; [|reflexivity].
+      destruct I as (t & id & v & pc & l' & Th & Ch & _). unfold quiescent in Q. rewrite forallb_forall in Q.
+      specialize (Q t (nth_error_In _ _ Th)). now rewrite Ch in Q.
+  Qed.
+
+  (* the Puts that ran are Puts some goroutine was given *)
+  Definition JInv (W : list (bytes * V)) (c : cstate (V:=V)) : Prop :=
+    (forall p, In p (log c) -> In p W) /\
+    (forall i t p, nth_error (thrs c) i = Some t -> In p (todo t) -> In p W).
+
+  Lemma cstep_jinv W locked c i : JInv W c -> JInv W (cstep locked c i).
+  Proof.
+    intros (JL & JT). unfold StorageConc.cstep. destruct (nth_error (thrs c) i) as [t|] eqn:Ti; [|now split].
+    assert (REPL : forall td cu, (forall p, In p td -> In p (todo t)) ->
+              forall j t' p, nth_error (replace_nth (thrs c) i {| todo := td; cur := cu |}) j = Some t' -> In p (todo t') -> In p W).
+    { intros td cu SUB j t' p Hj Hp. destruct (Nat.eq_dec i j) as [<-|NJ].
+      - rewrite (nth_replace_same _ _ _ _ Ti) in Hj. inversion Hj; subst t'. cbn [todo] in Hp. eapply JT; [exact Ti | now apply SUB].
+      - rewrite nth_replace_other in Hj by exact NJ. eapply JT; eassumption. }
+    destruct (cur t) as [[[id v] pc]|].
+    - destruct pc; try (destruct (micro (sh c) id v _) as [s' pc']); (split; [exact JL | cbn [thrs]; apply REPL; tauto]).
+    - destruct (todo t) as [|[id v] rest] eqn:TD; [now split|].
+      destruct (locked && _); [now split|]. split; cbn [log thrs].
+      + intros p Hp. apply in_app_or in Hp as [Hp|[<-|[]]]; [now apply JL|]. eapply JT; [exact Ti|]. try rewrite TD. now left.
+      + apply REPL. intros p Hp. try rewrite TD. now right.
+  Qed.
+
+  Lemma exec_jinv W locked sched : forall c, JInv W c -> JInv W (exec locked c sched).
+  Proof.
+    induction sched as [|i r IH]; intros c J; [exact J|]. cbn [StorageConc.exec fold_left]. apply IH. now apply cstep_jinv.
+  Qed.
+
+  Lemma start_jinv (s0 : st) work : JInv (concat work) (start s0 work).
+  Proof.
+    split; [intros p []|]. intros i t p Hi Hp. cbn [start thrs] in Hi. apply nth_error_In in Hi.
+    apply in_map_iff in Hi as (w & <- & Hw). cbn [todo] in Hp. apply in_concat. eauto.
+  Qed.
+
+  (* ---------------- the serial history is a history of the sequential model *)
+  Notation run := (run vlen vhead8 dec).
+  Lemma seq_puts_run Q l : forall (y : sys (V:=V)), SInv vlen Q y -> Forall (fun p => valid_id (node (mem y)) (fst p)) l ->
+    exists y', run y (map (fun p => OPut (fst p) (snd p)) l) = Ok y' /\ mem y' = seq_puts (mem y) l /\
+      SInv vlen (fun k v => Q k v \/ was_put (node (mem y)) (map (fun p => OPut (fst p) (snd p)) l) k v) y'.
+  Proof.
+    intros y S F.
+    assert (FV : Forall (valid_op (node (mem y))) (map (fun p => OPut (fst p) (snd p)) l)).
+    { apply Forall_forall. intros o Ho. apply in_map_iff in Ho as (p & <- & Hp). rewrite Forall_forall in F. exact (F p Hp). }
+    destruct (run_inv vlen vhead8 dec _ Q y S FV) as (y' & R & S' & _). exists y'. split; [exact R|]. split; [|exact S'].
+    clear S S' FV F. revert y y' R. induction l as [|[id v] l IH]; intros y y' R; cbn [map Storage.run] in R.
+    - now inversion R.
+    - cbn [fst snd Storage.step] in R. cbn [StorageConc.seq_puts fold_left]. unfold StorageConc.put_state at 2. cbn [fst snd].
+      destruct (put vlen dec (mem y) id v) as [[[s' r] bs]| |]; cbn [bind] in R; try discriminate.
+      change (fold_left put_state l s') with (seq_puts s' l). now apply (IH (commit y s' bs) y' R).
+  Qed.
+
+  (* after EVERY schedule of the locked machine, once all goroutines have finished, the sequential theorems hold:
+     the accounting invariant (held <= counter, record = counter, everything held was put) ... *)
+  Theorem locked_quiescent_inv Q (y0 : sys (V:=V)) work sched :
+    SInv vlen Q y0 -> Forall (fun p => valid_id (node (mem y0)) (fst p)) (concat work) ->
+    let c := exec true (start (mem y0) work) sched in
+    quiescent c = true ->
+    exists y', run y0 (map (fun p => OPut (fst p) (snd p)) (log c)) = Ok y' /\ mem y' = sh c /\
+      SInv vlen (fun k v => Q k v \/ was_put (node (mem y0)) (map (fun p => OPut (fst p) (snd p)) (log c)) k v) y' /\
+      forall p, In p (log c) -> In p (concat work).
+  Proof.
+    intros S F c QU. pose proof S as ((_ & HN & _) & _).
+    destruct (locked_is_serial (mem y0) work sched HN) as (SER & QL). fold c in SER, QL.
+    pose proof (exec_jinv (concat work) true sched _ (start_jinv (mem y0) work)) as (JL & _). fold c in JL.
+    assert (FL : Forall (fun p => valid_id (node (mem y0)) (fst p)) (log c)).
+    { apply Forall_forall. intros p Hp. rewrite Forall_forall in F. apply F, JL, Hp. }
+    destruct (seq_puts_run Q (log c) y0 S FL) as (y' & R & M & S').
+    exists y'. split; [exact R|]. split; [rewrite M; symmetry; apply SER, QL, QU|]. split; [exact S' | exact JL].
+  Qed.
+
+  (* ... and the capacity bound when every item is small *)
+  Theorem locked_quiescent_within_capacity Q (y0 : sys (V:=V)) work sched :
+    SInv vlen Q y0 -> cnt (mem y0) <= cap (mem y0) ->
+    Forall (fun p => valid_id (node (mem y0)) (fst p) /\ 32 + vlen (snd p) <= expect (mem y0)) (concat work) ->
+    let c := exec true (start (mem y0) work) sched in
+    quiescent c = true -> cnt (sh c) <= cap (sh c) /\ held vlen (sh c) <= cap (sh c).
+  Proof.
+    intros S LC F c QU.
+    assert (F1 : Forall (fun p => valid_id (node (mem y0)) (fst p)) (concat work)).
+    { eapply Forall_impl; [|exact F]. cbn. tauto. }
+    destruct (locked_quiescent_inv Q y0 work sched S F1 QU) as (y' & R & M & _ & JL). fold c in R, M, JL.
+    rewrite <- M. eapply (history_within_capacity vlen vhead8 dec _ Q y0 y' S LC); [|exact R].
+    apply Forall_forall. intros o Ho. apply in_map_iff in Ho as (p & <- & Hp). cbn [small_op].
+    rewrite Forall_forall in F. exact (F p (JL p Hp)).
+  Qed.
+End ConcFacts.
+
+(* ================================================================ the unlocked code: two prune passes over one snapshot *)
+
+(* a 1 MB store holding three 300 kB items; two goroutines put 100 kB each *)
+Definition conc_s0 : st (V:=N) :=
+  match run nv_len nv_head le_to_N (init 1 K_contentDeletionPPM zero32)
+          [OPut (key32 x00 x01) 300000; OPut (key32 x00 x02) 300000; OPut (key32 x00 x03) 300000] with
+  | Ok y => mem y
+  | _ => mem (init 1 K_contentDeletionPPM zero32)
+  end.
+Definition conc_work : list (list (bytes * N)) := [[(key32 x00 x05, 100000)]; [(key32 x00 x06, 100000)]].
+(* both add and commit (the counter passes the capacity twice), both scan the same database, both subtract *)
+Definition conc_sched : list nat := [0; 0; 0; 0; 1; 1; 1; 1; 0; 1; 0; 0; 1; 1; 0; 1]%nat.
+
 Lemma conc_unlocked_refuted :
-  exists sched y, exec_sched nv_len le_to_N conc_demo sched = Some y /\ all_done y = true /\
-    (exists n, rec (cdb y) = Some (SizeRec n) /\ n < held_kv nv_len (kv (cdb y))).
-Proof.
-  exists [0; 0; 1; 1; 1; 0]%nat. eexists. split; [vm_compute; reflexivity|]. split; [reflexivity|].
-  exists 132. split; vm_compute; reflexivity.
-Qed.
+  let c := exec nv_len le_to_N false (start conc_s0 conc_work) conc_sched in
+  quiescent c = true /\
+  cnt (sh c) = 900096 /\ held nv_len (sh c) = 1000128 /\          (* the usage figure under-reports what is held ... *)
+  rec (sdb (sh c)) = Some (SizeRec 900096) /\                       (* ... and so does the persisted record ... *)
+  cap (sh c) < held nv_len (sh c).                                  (* ... while the bytes held exceed the capacity *)
+Proof. vm_compute. repeat split; reflexivity. Qed.
 
-Lemma locked_is_serial {V : Type} (vlen : V -> N) (vhead8 : V -> res N) (dec : bytes -> N) (y : sys (V:=V)) sched :
-  exec_locked vlen dec vhead8 y sched = run vlen vhead8 dec y (map (fun p => OPut (fst p) (snd p)) sched).
-Proof.
-  revert y; induction sched as [|[id v] r IH]; intros y; cbn [exec_locked map run fst snd]; [reflexivity|].
-  destruct (step vlen vhead8 dec y (OPut id v)); cbn [bind]; [apply IH | reflexivity | reflexivity].
-Qed.
+(* the same schedule with the mutex: the serial result, within capacity *)
+Lemma conc_locked_same_schedule :
+  let c := exec nv_len le_to_N true (start conc_s0 conc_work) (conc_sched ++ conc_sched) in
+  quiescent c = true /\ held nv_len (sh c) <= cnt (sh c) /\ cnt (sh c) <= cap (sh c).
+Proof. vm_compute. repeat split; discriminate. Qed.
